@@ -175,7 +175,15 @@ class CInterp:
             return ("int", self.fresh("sizeof"))
         if k == "cond":
             self.ev(e.a[0])
-            a, b = self.ev(e.a[1]), self.ev(e.a[2])
+            # each arm is evaluated under what the condition says there
+            facts0 = list(self.facts)
+            f = self.float_fact(e.a[0], True)
+            self.facts = facts0 + [f] if f else list(facts0)
+            a = self.ev(e.a[1])
+            f = self.float_fact(e.a[0], False)
+            self.facts = facts0 + [f] if f else list(facts0)
+            b = self.ev(e.a[2])
+            self.facts = facts0
             if a == b:
                 return a
             if a[0] == "int" and b[0] == "int":
